@@ -332,8 +332,10 @@ class Ctx:
         ev = {"property_id": self.pid, "tier": self.tier, "seed": int(self.seed), "level": level, "coverage": cov,
               "assumptions": self.assumptions, "wall_s": round(wall, 2), "violations": len(self.violations)}
         if write_evidence:
-            os.makedirs(os.path.join(ROOT, "evidence"), exist_ok=True)
-            with open(os.path.join(ROOT, "evidence", self.pid + ".json"), "w") as fh:
+            # development override (VERIF_REPO = a scratch worktree): keep the committed evidence of /repo untouched
+            evdir = os.path.join(ROOT, "evidence") if REPO == "/repo" else os.path.join(ROOT, "work", "evidence-dev")
+            os.makedirs(evdir, exist_ok=True)
+            with open(os.path.join(evdir, self.pid + ".json"), "w") as fh:
                 json.dump(ev, fh, indent=1, default=str)
         print("SUMMARY property=%s tier=%s seed=%d states=%d transitions=%d traces=%d evaluations=%d violations=%d known=%d drift=%d wall=%.1fs"
               % (self.pid, self.tier, self.seed, self.states, self.transitions, self.traces, self.evaluations,
